@@ -1,6 +1,7 @@
 package props
 
 import (
+	"go/token"
 	"fmt"
 	"go/types"
 	"sort"
@@ -265,7 +266,8 @@ func (c *Ctx) bufferChecked(eng *ranges.Engine, fn *ssa.Function, p ssa.Value, d
 	if p.Referrers() == nil {
 		return true, "", "buffer unused"
 	}
-	checkedAt := func(b *ssa.BasicBlock) bool {
+	checkedAt := func(b *ssa.BasicBlock) bool { return c.lenCheckedAt(fn, b, p) }
+	_ = func(b *ssa.BasicBlock) bool {
 		// a dominating error-exiting branch whose condition mentions len(p)
 		for cb := b; cb != nil; cb = cb.Idom() {
 			d := cb.Idom()
@@ -323,6 +325,40 @@ func (c *Ctx) bufferChecked(eng *ranges.Engine, fn *ssa.Function, p ssa.Value, d
 				}
 			}
 		case *ssa.Store, *ssa.MakeInterface, *ssa.Phi:
+			// a parameter captured by closures lives in a cell (t = new []byte; *t = p): every load of
+			// the cell is the buffer again and carries the same obligation
+			if st, ok := x.(*ssa.Store); ok && st.Val == p {
+				if cell, ok := st.Addr.(*ssa.Alloc); ok && cell.Referrers() != nil {
+					okCell := true
+					for _, cr := range *cell.Referrers() {
+						switch y := cr.(type) {
+						case *ssa.UnOp:
+							if ok2, where, d := c.bufferChecked(eng, fn, y, depth+1, map[*ssa.Function]bool{}); !ok2 {
+								return false, where, d
+							}
+						case *ssa.MakeClosure:
+							if !c.checkedAtFor(fn, y.Block(), cell) {
+								okCell = false
+							}
+						case *ssa.Store, *ssa.DebugRef:
+						default:
+							okCell = false
+						}
+					}
+					if okCell {
+						continue
+					}
+				}
+			}
+			// the buffer is put into a local struct that is handed to the length-testing checker
+			// (args := T{pixelData, ...}; if err := args.validate(); err != nil { ... })
+			if st, ok := x.(*ssa.Store); ok && st.Val == p {
+				if fa, ok := st.Addr.(*ssa.FieldAddr); ok {
+					if al, ok := fa.X.(*ssa.Alloc); ok && c.structOnlyFeedsChecker(fn, al, p) {
+						continue
+					}
+				}
+			}
 			// stored or merged: not followed further; require the check here
 			if !checkedAt(ins.Block()) {
 				return false, c.P.Pos(ins.Pos()), "the pixel buffer escapes in " + load.FuncName(fn) + " before any length test"
@@ -330,6 +366,87 @@ func (c *Ctx) bufferChecked(eng *ranges.Engine, fn *ssa.Function, p ssa.Value, d
 		}
 	}
 	return true, "", detail
+}
+
+// lenCheckedAt: block b of fn is dominated by an error-exiting branch whose condition tests len(p).
+func (c *Ctx) lenCheckedAt(fn *ssa.Function, b *ssa.BasicBlock, p ssa.Value) bool {
+	for cb := b; cb != nil; cb = cb.Idom() {
+		d := cb.Idom()
+		if d == nil {
+			break
+		}
+		if len(d.Succs) != 2 {
+			continue
+		}
+		if !condTestsLen(ifCond(d), p) {
+			continue
+		}
+		for si, s := range d.Succs {
+			other := d.Succs[1-si]
+			if (other == cb || other.Dominates(b)) && leadsOnlyToErrors(fn, s) {
+				return true
+			}
+		}
+	}
+	return false
+}
+
+// structOnlyFeedsChecker: local struct al (holding buffer p in a field) is used only for field
+// stores/loads and as the argument / receiver of calls that either are the length-testing check
+// itself or happen after it.
+func (c *Ctx) structOnlyFeedsChecker(fn *ssa.Function, al *ssa.Alloc, p ssa.Value) bool {
+	if al.Referrers() == nil {
+		return false
+	}
+	callOK := func(call ssa.CallInstruction) bool {
+		b := call.Block()
+		if c.lenCheckedAt(fn, b, p) {
+			return true
+		}
+		// the call is the check: its outcome is the condition of its own block
+		if cl, _, _, ok := ranges.OutcomeOfCond(ifCond(b)); ok && ssa.CallInstruction(cl) == call && condTestsLen(ifCond(b), p) {
+			return true
+		}
+		return false
+	}
+	for _, r := range *al.Referrers() {
+		switch x := r.(type) {
+		case *ssa.FieldAddr, *ssa.DebugRef:
+		case *ssa.UnOp:
+			if x.Referrers() == nil {
+				continue
+			}
+			for _, u := range *x.Referrers() {
+				call, ok := u.(ssa.CallInstruction)
+				if !ok || !callOK(call) {
+					return false
+				}
+			}
+		case ssa.CallInstruction:
+			if !callOK(x) {
+				return false
+			}
+		default:
+			return false
+		}
+	}
+	return true
+}
+
+// checkedAtFor: as lenCheckedAt, for a buffer that lives in a capture cell: any load of the cell
+// stands for the buffer.
+func (c *Ctx) checkedAtFor(fn *ssa.Function, b *ssa.BasicBlock, cell *ssa.Alloc) bool {
+	if cell.Referrers() == nil {
+		return false
+	}
+	for _, r := range *cell.Referrers() {
+		if ld, ok := r.(*ssa.UnOp); ok && ld.Op == token.MUL {
+			if c.lenCheckedAt(fn, b, ld) {
+				return true
+			}
+		}
+	}
+	return false
 }
 
 // condTestsLen: the branch condition compares len(p) — directly, or inside a checking helper whose
@@ -349,6 +466,11 @@ func condTestsLen(cond ssa.Value, p ssa.Value) bool {
 	}
 	for i, a := range call.Call.Args {
 		if !(a == p || sameSlice(a, p) || mentionsLen(a, p, 0)) {
+			// the buffer travels inside a struct built for the checker (args := T{pixelData, ...};
+			// args.validate()): the checker must compare len of a []byte field of that struct
+			if structCarries(a, p) && calleeTestsLenOfField(sc, i) {
+				return true
+			}
 			continue
 		}
 		q := sc.Params[i]
@@ -360,6 +482,86 @@ func condTestsLen(cond ssa.Value, p ssa.Value) bool {
 			if mentionsVal(bo.X, q, 0) || mentionsVal(bo.Y, q, 0) {
 				return true
 			}
+		}
+	}
+	return false
+}
+
+// structCarries: a is (a pointer to / the value of) a local struct one of whose fields was assigned p.
+func structCarries(a, p ssa.Value) bool {
+	var al *ssa.Alloc
+	switch x := a.(type) {
+	case *ssa.Alloc:
+		al = x
+	case *ssa.UnOp:
+		if x.Op == token.MUL {
+			al, _ = x.X.(*ssa.Alloc)
+		}
+	}
+	if al == nil || al.Referrers() == nil {
+		return false
+	}
+	for _, r := range *al.Referrers() {
+		fa, ok := r.(*ssa.FieldAddr)
+		if !ok || fa.Referrers() == nil {
+			continue
+		}
+		for _, u := range *fa.Referrers() {
+			if st, ok := u.(*ssa.Store); ok && st.Addr == ssa.Value(fa) && (st.Val == p || sameSlice(st.Val, p)) {
+				return true
+			}
+		}
+	}
+	return false
+}
+
+// calleeTestsLenOfField: sc compares len() of a []byte field of its struct parameter i in some
+// branch condition.
+func calleeTestsLenOfField(sc *ssa.Function, i int) bool {
+	if i >= len(sc.Params) {
+		return false
+	}
+	q := sc.Params[i]
+	fromQ := func(v ssa.Value) bool {
+		switch x := v.(type) {
+		case *ssa.Field:
+			return x.X == ssa.Value(q) && isByteSlice(x.Type())
+		case *ssa.UnOp:
+			if fa, ok := x.X.(*ssa.FieldAddr); ok && x.Op == token.MUL && isByteSlice(x.Type()) {
+				if fa.X == ssa.Value(q) {
+					return true
+				}
+				// by-value parameter spilled to a local
+				if al, ok := fa.X.(*ssa.Alloc); ok && al.Referrers() != nil {
+					for _, r := range *al.Referrers() {
+						if st, ok := r.(*ssa.Store); ok && st.Addr == ssa.Value(al) && st.Val == ssa.Value(q) {
+							return true
+						}
+					}
+				}
+			}
+		}
+		return false
+	}
+	var mentions func(v ssa.Value, depth int) bool
+	mentions = func(v ssa.Value, depth int) bool {
+		if v == nil || depth > 5 {
+			return false
+		}
+		if x, ok := isLenOf(v); ok && fromQ(x) {
+			return true
+		}
+		switch y := v.(type) {
+		case *ssa.BinOp:
+			return mentions(y.X, depth+1) || mentions(y.Y, depth+1)
+		case *ssa.Convert:
+			return mentions(y.X, depth+1)
+		}
+		return false
+	}
+	for _, b := range sc.Blocks {
+		if bo, ok := ifCond(b).(*ssa.BinOp); ok && (mentions(bo.X, 0) || mentions(bo.Y, 0)) {
+			return true
 		}
 	}
 	return false
